@@ -283,6 +283,21 @@ def fam_timers(rnd: random.Random, tier: str) -> list:
     return out
 
 
+def fam_outbound_batch(tier: str) -> list:
+    """a long outbound batch towards a peer which reads slowly: KEEPALIVEs must still go out every H/3 (C12), and the hold
+    timer must keep running on what is received"""
+    n = 1500 if tier == 'quick' else 6000
+    static = 'static { ' + ' '.join(f'route 10.{i // 250}.{i % 250}.0/24 next-hop 192.0.2.1 med {i};' for i in range(n)) + ' }'
+    out = []
+    for hold in (9, 3):
+        steps = [{'do': 'est', 'hold': hold}]
+        for _ in range(8):
+            steps += [{'do': 'sleep', 'ms': hold * 1000 // 3}, {'do': 'send', 'cls': 'KA'}]
+        steps.append({'do': 'sleep', 'ms': 1000})
+        out.append((f'outbound-batch:h{hold}', steps, {'hold': hold, 'static': static, 'slow_reader': (1024, 100), 'horizon_ms': 200_000}))
+    return out
+
+
 def fam_connections() -> list:
     """connect failures, inbound connections in every state, teardown codes, EOF at every stage (C05)"""
     out = []
@@ -308,7 +323,7 @@ def fam_connections() -> list:
 
 def all_scenarios(tier: str, seed: int) -> list:
     rnd = random.Random(seed)
-    sc = fam_fault_table() + fam_quiet() + fam_connections() + fam_timers(rnd, tier) + fam_fault_pairs(rnd, 40 if tier == 'quick' else 600)
+    sc = fam_fault_table() + fam_quiet() + fam_outbound_batch(tier) + fam_connections() + fam_timers(rnd, tier) + fam_fault_pairs(rnd, 40 if tier == 'quick' else 600)
     return sc
 
 
